@@ -122,7 +122,12 @@ fn main() {
                     // reference verdict kinds and loom's verdict, side by side
                     let sc = scm::explore(&j.program, scm::Mode::explore(&j.program), 5_000_000);
                     std::panic::set_hook(Box::new(|_| {}));
-                    let (sum, _) = subject::run(&j.program, &j.cfg, |_: &subject::IterData| {});
+                    let show = std::env::var("VMC_SHOW_ITERS").is_ok();
+                    let (sum, _) = subject::run(&j.program, &j.cfg, move |it: &subject::IterData| {
+                        if show {
+                            println!("   iter {}: {}", it.index, checks::iter_sig(it));
+                        }
+                    });
                     let mut m2 = scm::Mode::explore(&j.program);
                     m2.spur_yield = true;
                     let sc2 = scm::explore(&j.program, m2, 5_000_000);
